@@ -107,7 +107,7 @@ def _validate_cuts(R, H, cuts):
 
 def run(R):
     quick = R.tier == 'quick'
-    variants = [0] if quick else [0, 1, 2, 3]
+    variants = [0, 4, 5] if quick else [0, 1, 2, 3, 4, 5]
     pct = 120 if quick else 600
     H = _H()
     from harness import C12_template as T
@@ -117,6 +117,8 @@ def run(R):
                 'mdiv slack': f'0..{T.SLK - 1}'}
     R.assume('integers are the input: request strings are parsed by parse_cpu_in_mcpu / parse_memory_in_bytes / parse_storage_in_bytes (C25)',
              'requested cores are the shares 250*2^k mcpu (k=0..12) that is_valid_cores_mcpu admits',
+             'pool sets 4/5 (also in quick) contain the same worker type twice with 4 and 16 worker cores, small-first and '
+             'large-first, with symbolic prices so either pool can be the cheaper one',
              'pool sets are the variants built by harness/C12_res.config from the repository tables (shipped layout; small+large '
              'pools per worker type with a labelled and a foreign-cloud pool; large-first with external disks; non-power-of-two '
              'cores); arbitrary other pool sets are not covered, single pools with every table core count are',
